@@ -1,3 +1,4 @@
+import Generated.Facts
 import SsoSpec.C01
 
 /-!
@@ -117,5 +118,11 @@ def exTable : List RouteEntry := [⟨false, "app.x.io"⟩, ⟨true, ""⟩, ⟨fa
 example : routeHost exTable (fun _ => true) "app.x.io" = some 2 := by decide      -- later static registration wins; regexps ignored
 example : routeHost exTable (fun i => i == 3) "other" = some 3 := by decide
 example : routeHost exTable (fun _ => false) "APP.x.io" = none := by decide       -- exact bytes: no case folding
+
+/-- Tie (T1): `proxy.New` builds, **inside the loop over upstreams**, one provider (`newProvider`, hence one single-flight
+group), one reverse proxy and one validator list per upstream, installs them with the `Set…` options and registers the
+handler under that upstream's route — nothing is shared between upstreams. -/
+theorem C13_skeleton_New : Sso.Generated.skel_proxy_New =
+    ["if{", "call:NewRequestSigner", "if{", "return", "}", "call:SetRequestSigner", "call:append", "}", "call:NewRouter", "range{", "if{", "store:upstreamConfigs.DefaultConfig.ProviderSlug", "}", "call:newProvider", "if{", "return", "}", "call:NewUpstreamReverseProxy", "if{", "return", "}", "call:len", "if{", "call:NewEmailAddressValidator", "call:append", "}", "call:len", "if{", "call:NewEmailDomainValidator", "call:append", "}", "call:len", "if{", "call:NewEmailGroupValidator", "call:append", "}", "call:SetProvider", "call:SetCookieStore", "call:SetUpstreamConfig", "call:SetProxyHandler", "call:SetStatsdClient", "call:SetValidators", "call:append", "call:NewOAuthProxy", "if{", "return", "}", "typeswitch{", "case{", "call:Handler", "call:HandleStatic", "}", "case{", "call:Handler", "call:HandleRegexp", "}", "case{", "call:Errorf", "return", "}", "}", "}", "call:setHealthCheck", "return"] := by decide
 
 end Sso.Proxy
